@@ -3607,6 +3607,9 @@ func UnmarshalSubTLVs(stlvs map[uint32]*api.SRv6SubTLVs) (uint16, []bgp.PrefixSI
 					SubSubTLVs: make([]bgp.PrefixSIDTLVInterface, 0),
 				}
 				infoProto := raw.GetInformation()
+				if infoProto == nil {
+					return 0, nil, fmt.Errorf("unknown or not implemented Prefix SID Sub TLV: %+v", raw.GetTlv())
+				}
 				info.SID = make([]byte, len(infoProto.Sid))
 				copy(info.SID, infoProto.Sid)
 				// TODO Once RFC is published add processing of flags
@@ -3655,6 +3658,9 @@ func UnmarshalSubSubTLVs(stlvs map[uint32]*api.SRv6SubSubTLVs) (uint16, []bgp.Pr
 					},
 				}
 				structureProto := raw.GetStructure()
+				if structureProto == nil {
+					return 0, nil, fmt.Errorf("unknown or not implemented Prefix SID Sub Sub TLV: %+v", raw.GetTlv())
+				}
 				structure.LocatorBlockLength = uint8(structureProto.LocatorBlockLength)
 				structure.LocatorNodeLength = uint8(structureProto.LocatorNodeLength)
 				structure.FunctionLength = uint8(structureProto.FunctionLength)
